@@ -333,11 +333,31 @@ def impl_lines(d, meta, facts, out_by_site, my_sites):
 
 
 def first_diff(a, b):
-    ra, rb = a.split(","), b.split(",")
-    for x, y in zip(ra, rb):
-        if x != y:
-            return f"{x}  vs  {y}"
-    return f"(lengths differ: {len(ra)} vs {len(rb)} runs)"
+    """first raw value / bit pattern at which two run-length tables differ"""
+    def expand(t):
+        out = []
+        for run in t.split(","):
+            m = re.match(r"^(-?\d+)\.\.(-?\d+):(.*)$", run)
+            if m:
+                out.append((int(m.group(1)), int(m.group(2)), m.group(3)))
+        return out
+    ra, rb = expand(a), expand(b)
+    if not ra or not rb:
+        return f"{a[:200]}  vs  {b[:200]}"
+    x = min(ra[0][0], rb[0][0])
+    end = max(ra[-1][1], rb[-1][1])
+
+    def at(rs, v):
+        for s0, e0, t in rs:
+            if s0 <= v <= e0:
+                return t
+        return "(no value)"
+    # runs are few: only run boundaries can start a difference
+    cands = sorted({x} | {s0 for s0, _, _ in ra + rb} | {e0 + 1 for _, e0, _ in ra + rb})
+    for v in cands:
+        if v <= end and at(ra, v) != at(rb, v):
+            return f"raw value {v}: implementation {at(ra, v)}, model {at(rb, v)}"
+    return "(tables equal value by value)"
 
 
 def parse_output(stdout):
